@@ -424,10 +424,16 @@ impl<'d> serde::ser::Serializer for Serializer<'d> {
 
     fn serialize_struct(
         self,
-        _name: &'static str,
+        name: &'static str,
         len: usize,
     ) -> Result<Self::SerializeStruct, Self::Error> {
-        self.serialize_map(Some(len))
+        // let the inner serializer see the name: a bare `Datetime` is then a date-time, which
+        // `write_document` refuses as a non-table root, and not a table holding the private field
+        let ser = toml_edit::ser::ValueSerializer::new()
+            .serialize_struct(name, len)
+            .map_err(Error::wrap)?;
+        let ser = SerializeDocumentTable::new(self, ser);
+        Ok(ser)
     }
 
     fn serialize_struct_variant(
